@@ -819,11 +819,43 @@ where
                 }
                 Ok(removed)
             }
+            TrieStorage::DoubleArray { .. } | TrieStorage::CompressedSparse { .. } => {
+                self.remove_by_clearing_terminal(key)
+            }
             _ => {
                 // For other storage types, return false for now
                 Ok(false)
             }
         }
+    }
+
+    /// Remove for the storages that keep one state per key prefix (double array,
+    /// compressed sparse): walk to the key's state and clear its terminal flag.
+    /// The states themselves are kept, so a later insert of the key reuses them.
+    fn remove_by_clearing_terminal(&mut self, key: &[u8]) -> Result<bool> {
+        let mut state = self.root();
+        for &symbol in key {
+            match self.transition(state, symbol) {
+                Some(next) => state = next,
+                None => return Ok(false),
+            }
+        }
+        if !self.is_final(state) {
+            return Ok(false);
+        }
+        match &mut self.storage {
+            TrieStorage::DoubleArray { base, .. } => {
+                base[state as usize] &= !0x8000_0000u32; // TERMINAL_BIT
+            }
+            TrieStorage::CompressedSparse { sparse_nodes, .. } => {
+                if let Some(node) = sparse_nodes.get_mut(&state) {
+                    node.is_final = false;
+                }
+            }
+            _ => return Ok(false),
+        }
+        self.stats.num_keys = self.stats.num_keys.saturating_sub(1);
+        Ok(true)
     }
 
     /// Get the number of keys in the trie
